@@ -136,6 +136,10 @@ func Random(r *mon.Rand, o GenOpts) *History {
 				op.Type = TypeEOE
 			}
 			h.Ops = append(h.Ops, op)
+			// now and then the same record text arrives twice in a row for one event (a distinct message)
+			if fr := r.Fork(uint64(1000 + len(h.Ops))); op.Kind == OpPushMsg && op.Type != TypeEOE && fr.Chance(1, 12) {
+				h.Ops = append(h.Ops, Op{Kind: OpPushMsg, Seq: op.Seq, Type: op.Type, Twin: true})
+			}
 		}
 	}
 	h.Ops = append(h.Ops, Op{Kind: OpClose})
